@@ -46,6 +46,24 @@ def run(ctx):
     r165(ctx)
 
 
+def _next_version_shape(fv, operand, e):
+    """accepted spellings of `existing version + 1, else 0`: x.map(f).unwrap_or(0), x.map_or(0, f), and a match /
+    if-let with the two arms (the +1 of the closure / arm is checked by the caller or here)"""
+    e = strip_ref(e)
+    if e[0] == "call" and e[1].endswith("Option::<T>::unwrap_or") and len(e[2]) == 2 and strip_ref(e[2][1]) == ("int", 0):
+        m = strip_ref(e[2][0])
+        return m[0] == "call" and m[1].endswith("Option::<T>::map") and m[2][1][0] == "closure"
+    if e[0] == "call" and e[1].endswith("Option::<T>::map_or") and len(e[2]) == 3:
+        return strip_ref(e[2][1]) == ("int", 0) and e[2][2][0] == "closure"
+    root, defs, sw = R.conditional_defs(fv, operand)
+    if len(defs) == 2 and len(sw) == 1 and sw[0][1][0] == "discr":
+        vals = [ops[0] if ops else None for _, ops in defs]
+        zero = [v for v in vals if v is not None and strip_ref(v) == ("int", 0)]
+        plus = [v for v in vals if v is not None and atoms.linear(v)[1] == 1 and len(atoms.linear(v)[0]) == 1]
+        return len(zero) == 1 and len(plus) == 1
+    return False
+
+
 def _store_writes(fv, b, backend):
     out = []
     nv = fv.named()
@@ -146,7 +164,7 @@ def r161(ctx):
         for bi, c in calls:
             e_ = pv.expr(c.args[2])
             ve = render(e_[2]) if e_[0] == "let" else render(e_)
-            ok = "unwrap_or(" in ve and ve.rstrip(")").endswith(", 0") and "::map(" in ve
+            ok = _next_version_shape(pv, c.args[2], e_[2] if e_[0] == "let" else e_)
             # closure adds one
             add1 = False
             for cb in p.closures_of(pb):
@@ -161,7 +179,7 @@ def r161(ctx):
                         lin = atoms.linear(ex)
                         if lin[1] == 1 and len(lin[0]) == 1:
                             add1 = True
-            ctx.ob("R16.1", ok and add1, f"{be}/put/next-version", f"{be} put computes version `{ve[:120]}` (closure +1: {add1})",
+            ctx.ob("R16.1", ok and (add1 or not list(p.closures_of(pb))), f"{be}/put/next-version", f"{be} put computes version `{ve[:120]}` (closure +1: {add1})",
                    where=f"{pb.file}:{c.line}", sample="existing.map(|v| v + 1).unwrap_or(0)")
         db = p.fn(f"{pref}::delete")
         dv = fnview(ctx, db, policy=False)
